@@ -13,6 +13,11 @@
 #include <nitro/log/filter/severity_filter.hpp>
 #include <nitro/log/log.hpp>
 #include <nitro/log/sink/null.hpp>
+#include <nitro/log/sink/sequence.hpp>
+#include <nitro/log/sink/stderr.hpp>
+#include <nitro/log/sink/stderr_mt.hpp>
+#include <nitro/log/sink/stdout.hpp>
+#include <nitro/log/sink/stdout_mt.hpp>
 
 #ifndef VERIF_MIN_IDX
 #error "VERIF_MIN_IDX must be defined"
@@ -73,6 +78,33 @@ CELL(info, 2, "[C10 w5] info: discarding stream iff below the minimum", "[C10 w6
 CELL(warn, 3, "[C10 w7] warn: discarding stream iff below the minimum", "[C10 w8] warn: emitting stream of severity warn iff at/above the minimum")
 CELL(error, 4, "[C10 w9] error: discarding stream iff below the minimum", "[C10 w10] error: emitting stream of severity error iff at/above the minimum")
 CELL(fatal, 5, "[C10 w11] fatal: discarding stream iff below the minimum", "[C10 w12] fatal: emitting stream of severity fatal iff at/above the minimum")
+
+// the gate looks at the severity and the compile-time minimum only: the same cells for every sink the library ships (a statement is
+// not compiled out - or kept - because of where its record would go)
+template <typename Sink>
+using LS = nitro::log::logger<record, fmt_t, Sink, flt>;
+template <typename Sink, severity_level S>
+using smart_s = nitro::log::detail::smart_stream<record, fmt_t, Sink, flt, S>;
+#define SINKCELLS(Sink, t1, t2, t3, t4, t5, t6)                                                                                  \
+    static_assert(std::is_same<decltype(LS<Sink>::trace()), null_stream>::value == (0 < VERIF_MIN_IDX), t1);                     \
+    static_assert(std::is_same<decltype(LS<Sink>::trace()), smart_s<Sink, severity_level::trace>>::value == (0 >= VERIF_MIN_IDX), t2); \
+    static_assert(std::is_same<decltype(LS<Sink>::info()), null_stream>::value == (2 < VERIF_MIN_IDX), t3);                      \
+    static_assert(std::is_same<decltype(LS<Sink>::info()), smart_s<Sink, severity_level::info>>::value == (2 >= VERIF_MIN_IDX), t4);   \
+    static_assert(std::is_same<decltype(LS<Sink>::fatal()), null_stream>::value == (5 < VERIF_MIN_IDX), t5);                     \
+    static_assert(std::is_same<decltype(LS<Sink>::fatal()), smart_s<Sink, severity_level::fatal>>::value == (5 >= VERIF_MIN_IDX), t6);
+using seq_sink = nitro::log::sink::sequence<nitro::log::sink::Null, nitro::log::sink::StdOut>;
+SINKCELLS(nitro::log::sink::Null, "[C10 w13] sink Null, trace: discarding iff below the minimum", "[C10 w14] sink Null, trace: emitting iff at/above the minimum", "[C10 w15] sink Null, info: discarding iff below the minimum",
+          "[C10 w16] sink Null, info: emitting iff at/above the minimum", "[C10 w17] sink Null, fatal: discarding iff below the minimum", "[C10 w18] sink Null, fatal: emitting iff at/above the minimum")
+SINKCELLS(nitro::log::sink::StdOut, "[C10 w19] sink StdOut, trace: discarding iff below the minimum", "[C10 w20] sink StdOut, trace: emitting iff at/above the minimum", "[C10 w21] sink StdOut, info: discarding iff below the minimum",
+          "[C10 w22] sink StdOut, info: emitting iff at/above the minimum", "[C10 w23] sink StdOut, fatal: discarding iff below the minimum", "[C10 w24] sink StdOut, fatal: emitting iff at/above the minimum")
+SINKCELLS(nitro::log::sink::StdErr, "[C10 w25] sink StdErr, trace: discarding iff below the minimum", "[C10 w26] sink StdErr, trace: emitting iff at/above the minimum", "[C10 w27] sink StdErr, info: discarding iff below the minimum",
+          "[C10 w28] sink StdErr, info: emitting iff at/above the minimum", "[C10 w29] sink StdErr, fatal: discarding iff below the minimum", "[C10 w30] sink StdErr, fatal: emitting iff at/above the minimum")
+SINKCELLS(nitro::log::sink::stdout_mt, "[C10 w31] sink stdout_mt, trace: discarding iff below the minimum", "[C10 w32] sink stdout_mt, trace: emitting iff at/above the minimum", "[C10 w33] sink stdout_mt, info: discarding iff below the minimum",
+          "[C10 w34] sink stdout_mt, info: emitting iff at/above the minimum", "[C10 w35] sink stdout_mt, fatal: discarding iff below the minimum", "[C10 w36] sink stdout_mt, fatal: emitting iff at/above the minimum")
+SINKCELLS(nitro::log::sink::StdErrThreaded, "[C10 w37] sink StdErrThreaded, trace: discarding iff below the minimum", "[C10 w38] sink StdErrThreaded, trace: emitting iff at/above the minimum", "[C10 w39] sink StdErrThreaded, info: discarding iff below the minimum",
+          "[C10 w40] sink StdErrThreaded, info: emitting iff at/above the minimum", "[C10 w41] sink StdErrThreaded, fatal: discarding iff below the minimum", "[C10 w42] sink StdErrThreaded, fatal: emitting iff at/above the minimum")
+SINKCELLS(seq_sink, "[C10 w43] sink sequence<Null, StdOut>, trace: discarding iff below the minimum", "[C10 w44] sink sequence<Null, StdOut>, trace: emitting iff at/above the minimum", "[C10 w45] sink sequence<Null, StdOut>, info: discarding iff below the minimum",
+          "[C10 w46] sink sequence<Null, StdOut>, info: emitting iff at/above the minimum", "[C10 w47] sink sequence<Null, StdOut>, fatal: discarding iff below the minimum", "[C10 w48] sink sequence<Null, StdOut>, fatal: emitting iff at/above the minimum")
 
 std::string lazy_fn() { return "x"; }
 
